@@ -174,6 +174,32 @@ class Driver:
                       info={'impl': repr(impl[1])[:400], 'ref': repr(ref[1])[:400]})
         self.check_tree(prefix, sig)
 
+    def guard_same(self, what='build'):
+        """Same comparison as check_same, but as a guard: a divergence from the
+        reference here belongs to another property (C01), so the path just ends
+        (counted in the evidence notes) instead of raising this property's alarm."""
+        from symx.common import PathEnd
+        eng, w = self.eng, self.w
+        impl, ref, _ = self.last
+        ok = impl[0] == ref[0]
+        if ok and impl[0] == 'exc':
+            ok = exc_name(impl[1]) == exc_name(ref[1])
+            self.sync_rollback_latitude()
+        elif ok:
+            ok = eng.holds(veq(impl[1], ref[1]))
+        if ok:
+            ok = self.trees_equal()
+        if not ok:
+            eng.note('guard:diverged-from-reference-in-' + what)
+            raise PathEnd()
+
+    def trees_equal(self):
+        eng, w = self.eng, self.w
+        a, b = w.snap(w.fs), w.snap(w.ref)
+        if set(a) != set(b) or any(a[p][0] != b[p][0] for p in a):
+            return False
+        return eng.holds(L.and_(*[L.eq(a[p][2], b[p][2]) for p in a if a[p][0] == 'F']))
+
     def check_tree(self, prefix, sig=()):
         eng, w = self.eng, self.w
         a = w.snap(w.fs)
